@@ -103,15 +103,20 @@ CHECKS.update({
                             "AV1 / VP9 / audio callbacks carry no DTS: only PTS is compared there",
                             "AbsoluteTime: the value is checked whenever it is available; availability is required only for the leading track from the first dated segment on",
                             "MPEG-TS segments are muxed in DTS order; PROGRAM-DATE-TIME values are consistent with media time to 1 ms"]},
-    "C11": {"steps": [REPLAYS, rapid("select", "TestC11", 640, 20000, qshards=8, tshards=14, shrinktime="60s", timeout={"quick": 900, "thorough": 3000})],
+    "C11": {"steps": [REPLAYS, rapid("select", "TestC11", 2400, 60000, qshards=8, tshards=14, shrinktime="60s", timeout={"quick": 900, "thorough": 3000})],
             "assumptions": ["playlist histories are served by an in-process transport: the k-th request of a playlist gets the k-th snapshot (the last one repeats)",
                             "segments carry one 10 ms sample each; the expected request log is the ClientSelectModel of DESIGN Appendix C written from the statement",
                             "several rendition streams: per-stream sub-logs are compared (the global interleaving is the scheduler's); when one stream stops with an error the others may be cut short",
                             "a byte range without offset is generated either on a resource of its own (starts at 0) or after an explicit sub-range of the same resource (continues after it, RFC 8216 4.3.2.2)"]},
-    "C12": {"steps": [REPLAYS, rapid("term", "TestC12", 640, 20000, qshards=8, tshards=14, shrinktime="60s", timeout={"quick": 900, "thorough": 3000})],
+    "C12": {"steps": [REPLAYS, rapid("term", "TestC12", 1200, 30000, qshards=8, tshards=14, shrinktime="60s", timeout={"quick": 900, "thorough": 3000})],
             "assumptions": ["a goroutine counts as leaked when a frame of gohlslib's client is still on its stack 3 s after Wait() yielded",
                             "a body that stalls until cancelled can only be ended by Close: the harness closes the client after 1.5 s and requires termination",
                             "when a Close races with the natural end of the stream either ErrClientEOS or the termination error is accepted"]},
+    "C13": {"steps": [REPLAYS, rapid("robust", "TestC13", 800, 30000, qshards=8, tshards=14, shrinktime="60s", timeout={"quick": 900, "thorough": 3000}),
+                      fuzz("fuzz-playlist", "FuzzC13Playlist", 240)],
+            "assumptions": ["a panic in a client goroutine kills the test process: every scenario is logged before execution and the driver replays the last one to attribute the crash",
+                            "busy loop = more than 400 requests or more than 80% CPU of the process during a 1.5 s run that did not end by itself",
+                            "mutations are applied to streams built by the harness; truncation points include every box boundary of the first three nesting levels"]},
     "C16": e1("TestC16", 1000, 30000),
     "C18": e1("TestC18", 400, 8000),
     "C19": e1("TestC19", 800, 30000),
